@@ -35,7 +35,7 @@ MCP ==
      INACTIVITY_PENALTY_QUOTIENT_BELLATRIX |-> 32, MIN_SLASHING_PENALTY_QUOTIENT_BELLATRIX |-> 4,
      PROPORTIONAL_SLASHING_MULTIPLIER_BELLATRIX |-> 3,
      MAX_BLS_TO_EXECUTION_CHANGES |-> 1, MAX_WITHDRAWALS_PER_PAYLOAD |-> 2, MAX_VALIDATORS_PER_WITHDRAWALS_SWEEP |-> 3,
-     MAX_BLOB_COMMITMENTS_PER_BLOCK |-> 2, MAX_BLOBS_PER_BLOCK |-> 2,
+     MAX_BLOB_COMMITMENTS_PER_BLOCK |-> 2, MAX_BLOBS_PER_BLOCK |-> 2, MAX_TRANSACTIONS_PER_PAYLOAD |-> 4, MAX_EXTRA_DATA_BYTES |-> 32,
      SECONDS_PER_SLOT |-> 6, MIN_VALIDATOR_WITHDRAWABILITY_DELAY |-> 1, SHARD_COMMITTEE_PERIOD |-> 1,
      INACTIVITY_SCORE_BIAS |-> 4, INACTIVITY_SCORE_RECOVERY_RATE |-> 3, EJECTION_BALANCE |-> 16000,
      MIN_PER_EPOCH_CHURN_LIMIT |-> 1, CHURN_LIMIT_QUOTIENT |-> 8, MAX_PER_EPOCH_ACTIVATION_CHURN_LIMIT |-> 1,
@@ -148,7 +148,7 @@ HonestBlock(pre, attAll, op) ==
     IN IF pre.fork \in {"phase0", "altair"} THEN withSync
        ELSE withSync @@ [payload |-> [is_default |-> FALSE, header |-> PayloadHeaderFor(pre),
                                       withdrawals |-> (IF AtLeast(pre, "capella") THEN ExpectedWithdrawals(pre) ELSE <<>>),
-                                      engine_ok |-> TRUE]]
+                                      engine_ok |-> TRUE, n_transactions |-> 1, extra_data_len |-> 5]]
 
 \* whether the environment may use the operation in a block on `pre`
 OpEnabled(pre, op) ==
